@@ -116,6 +116,7 @@ pub open spec fn valid_pubkey(b: Seq<u8>) -> bool { (b.len() == 33 || b.len() ==
 pub uninterp spec fn valid_xonly(b: Seq<u8>) -> bool;
 pub struct PublicKey { pub compressed: bool, pub point: u64 }
 pub struct KeyError { pub opaque: u8 }
+#[derive(Clone, Copy)]
 pub struct XOnlyPublicKey { pub x: u64 }
 #[derive(Clone, Copy)]
 pub enum SigType { Ecdsa, Schnorr }
@@ -139,30 +140,108 @@ impl XOnlyPublicKey {
 pub struct Secp256k1 { pub opaque: u8 }
 impl Secp256k1 { #[verifier::external_body] pub fn verification_only() -> Secp256k1 { unimplemented!() } }
 
-// BIP341 control block: 33 + 32m bytes (m <= 128); the commitment check is an uninterpreted predicate of
-// (control block bytes c, output key bytes q, script bytes s) -- it contains the leaf version c[0] & 0xfe
+// ---- BIP341 script-path commitment (the ORACLE; hashes and the curve tweak uninterpreted) ------------------
+// control block c = [ (leaf version | parity bit), p (32 bytes), e_0 .. e_{m-1} (32 bytes each) ], m <= 128.
+//   k_0 = hash_TapLeaf(v || compact_size(len s) || s)            with v = c[0] & 0xfe
+//   k_{j+1} = hash_TapBranch(sorted(k_j, e_j))
+//   t = hash_TapTweak(p || k_m),  Q = lift_x(p) + t.G
+//   "If q != x(Q) or c[0] & 1 != y(Q) mod 2, fail."
 pub open spec fn cb_size_ok(n: nat) -> bool { n >= 33 && (n - 33) % 32 == 0 && (n - 33) / 32 <= 128 }
 pub uninterp spec fn spec_cb_decodes(c: Seq<u8>) -> bool;
-pub uninterp spec fn spec_tap_commit(c: Seq<u8>, q: Seq<u8>, s: Seq<u8>) -> bool;
+pub uninterp spec fn tapleaf_hash(v: u8, s: Seq<u8>) -> Seq<u8>;
+pub uninterp spec fn tapbranch_hash(k: Seq<u8>, e: Seq<u8>) -> Seq<u8>;         // of the lexicographically sorted pair
+pub uninterp spec fn taptweak_x(p: Seq<u8>, root: Seq<u8>) -> Seq<u8>;          // x(Q)
+pub uninterp spec fn taptweak_odd(p: Seq<u8>, root: Seq<u8>) -> bool;           // y(Q) mod 2 == 1
+pub open spec fn cb_leaf_version(c: Seq<u8>) -> u8 { c[0] & 0xfeu8 }
+pub open spec fn cb_parity_odd(c: Seq<u8>) -> bool { (c[0] & 1u8) == 1u8 }
+pub open spec fn cb_internal_key(c: Seq<u8>) -> Seq<u8> { c.subrange(1, 33) }
+pub open spec fn cb_branch(c: Seq<u8>) -> Seq<Seq<u8>> { Seq::new(((c.len() - 33) / 32) as nat, |j: int| c.subrange(33 + 32 * j, 65 + 32 * j)) }
+// k_i: the node reached after folding the first i siblings into k_0
+pub open spec fn merkle_prefix(k0: Seq<u8>, branch: Seq<Seq<u8>>, i: int) -> Seq<u8>
+    decreases i
+{ if i <= 0 { k0 } else { tapbranch_hash(merkle_prefix(k0, branch, i - 1), branch[i - 1]) } }
+pub open spec fn merkle_root(k0: Seq<u8>, branch: Seq<Seq<u8>>) -> Seq<u8> { merkle_prefix(k0, branch, branch.len() as int) }
+pub open spec fn commitment_ok(c: Seq<u8>, q: Seq<u8>, s: Seq<u8>) -> bool {
+    let root = merkle_root(tapleaf_hash(cb_leaf_version(c), s), cb_branch(c));
+    taptweak_x(cb_internal_key(c), root) == q && taptweak_odd(cb_internal_key(c), root) == cb_parity_odd(c)
+}
 pub const TAPROOT_ANNEX_PREFIX: u8 = 0x50;
-pub struct ControlBlock { pub opaque: u64 }
+#[derive(Clone, Copy)]
+pub struct LeafVersion { pub v: u8 }
+impl LeafVersion { pub open spec fn consensus(&self) -> u8 { self.v } }
+#[derive(Clone, Copy, PartialEq, Eq)]
+pub enum Parity { Even, Odd }
+impl vstd::std_specs::cmp::PartialEqSpecImpl for Parity { open spec fn obeys_eq_spec() -> bool { true } open spec fn eq_spec(&self, o: &Parity) -> bool { *self == *o } }
+#[derive(Clone, Copy)]
+pub struct TapLeafHash(pub [u8; 32]);
+#[derive(Clone, Copy)]
+pub struct TapNodeHash(pub [u8; 32]);
+impl TapLeafHash {
+    #[verifier::external_body]
+    pub fn from_script(script: &Script, ver: LeafVersion) -> (r: TapLeafHash) ensures r.0@ == tapleaf_hash(ver.consensus(), script.bytes()) { unimplemented!() }
+}
+impl From<TapLeafHash> for TapNodeHash { fn from(l: TapLeafHash) -> (r: TapNodeHash) { TapNodeHash(l.0) } }
+impl vstd::std_specs::convert::FromSpecImpl<TapLeafHash> for TapNodeHash { open spec fn obeys_from_spec() -> bool { true } open spec fn from_spec(l: TapLeafHash) -> TapNodeHash { TapNodeHash(l.0) } }
+impl TapNodeHash {
+    #[verifier::external_body]
+    pub fn from_node_hashes(a: TapNodeHash, b: TapNodeHash) -> (r: TapNodeHash) ensures r.0@ == tapbranch_hash(a.0@, b.0@) { unimplemented!() }
+    #[verifier::external_body]
+    pub fn from_script(script: &Script, ver: LeafVersion) -> (r: TapNodeHash) ensures r.0@ == tapleaf_hash(ver.consensus(), script.bytes()) { unimplemented!() }
+}
+pub struct TaprootMerkleBranch { pub opaque: u64 }
+impl TaprootMerkleBranch {
+    pub uninterp spec fn nodes(&self) -> Seq<Seq<u8>>;
+    #[verifier::external_body] pub fn len(&self) -> (r: usize) ensures r == self.nodes().len() { unimplemented!() }
+    // element access of the slice iteration (see the fold rewrite R8)
+    #[verifier::external_body] pub fn node_at(&self, i: usize) -> (r: &TapNodeHash) requires i < self.nodes().len() ensures r.0@ == self.nodes()[i as int] { unimplemented!() }
+}
+// bitcoin::key::TweakedPublicKey(XOnlyPublicKey); TapTweak::tap_tweak = (x(Q), parity of Q)
+#[derive(Clone, Copy)]
+pub struct TweakedPublicKey(pub XOnlyPublicKey);
+impl From<TweakedPublicKey> for XOnlyPublicKey { fn from(t: TweakedPublicKey) -> (r: XOnlyPublicKey) { t.0 } }
+impl vstd::std_specs::convert::FromSpecImpl<TweakedPublicKey> for XOnlyPublicKey { open spec fn obeys_from_spec() -> bool { true } open spec fn from_spec(t: TweakedPublicKey) -> XOnlyPublicKey { t.0 } }
+impl TweakedPublicKey {
+    pub fn to_inner(self) -> (r: XOnlyPublicKey) ensures r == self.0 { self.0 }
+    pub fn to_x_only_public_key(self) -> (r: XOnlyPublicKey) ensures r == self.0 { self.0 }
+    #[verifier::external_body] pub fn serialize(&self) -> (r: [u8; 32]) ensures r@ == self.0.ser() { unimplemented!() }
+}
+impl XOnlyPublicKey {
+    #[verifier::external_body]
+    pub fn tap_tweak(self, secp: &Secp256k1, merkle_root: Option<TapNodeHash>) -> (r: (TweakedPublicKey, Parity))
+        ensures merkle_root is Some ==> r.0.0.ser() == taptweak_x(self.ser(), merkle_root->Some_0.0@) && (r.1 is Odd) == taptweak_odd(self.ser(), merkle_root->Some_0.0@),
+    { unimplemented!() }
+    #[verifier::external_body] pub fn serialize(&self) -> (r: [u8; 32]) ensures r@ == self.ser() { unimplemented!() }
+}
+impl PartialEq for XOnlyPublicKey { #[verifier::external_body] fn eq(&self, o: &XOnlyPublicKey) -> (r: bool) { unimplemented!() } }
+impl vstd::std_specs::cmp::PartialEqSpecImpl for XOnlyPublicKey { open spec fn obeys_eq_spec() -> bool { true } open spec fn eq_spec(&self, o: &XOnlyPublicKey) -> bool { self.ser() == o.ser() } }
+// a decoded control block: the fields are the BIP341 parts of its bytes
+pub struct ControlBlock { pub leaf_version: LeafVersion, pub output_key_parity: Parity, pub internal_key: XOnlyPublicKey, pub merkle_branch: TaprootMerkleBranch }
 pub struct TaprootError { pub opaque: u8 }
+pub open spec fn cb_fields_are(cb: ControlBlock, c: Seq<u8>) -> bool {
+    &&& cb.ser() == c
+    &&& cb.leaf_version.consensus() == cb_leaf_version(c)
+    &&& (cb.output_key_parity is Odd) == cb_parity_odd(c)
+    &&& cb.internal_key.ser() == cb_internal_key(c)
+    &&& cb.merkle_branch.nodes() == cb_branch(c)
+}
 impl ControlBlock {
     pub uninterp spec fn ser(&self) -> Seq<u8>;
     #[verifier::external_body]
     pub fn decode(sl: &[u8]) -> (r: Result<ControlBlock, TaprootError>)
-        ensures r is Ok <==> spec_cb_decodes(sl@), r is Ok ==> r->Ok_0.ser() == sl@ && cb_size_ok(sl@.len()),
+        ensures r is Ok <==> spec_cb_decodes(sl@), r is Ok ==> cb_fields_are(r->Ok_0, sl@) && cb_size_ok(sl@.len()),
     { unimplemented!() }
+    // bitcoin 0.32 taproot/mod.rs: leaf hash of (script, self.leaf_version), fold of the branch, tweak_add_check(output_key, parity)
     #[verifier::external_body]
     pub fn verify_taproot_commitment(&self, secp: &Secp256k1, output_key: XOnlyPublicKey, script: &Script) -> (r: bool)
-        ensures r == spec_tap_commit(self.ser(), output_key.ser(), script.bytes()),
+        ensures r == commitment_ok(self.ser(), output_key.ser(), script.bytes()),
     { unimplemented!() }
 }
 pub struct Witness { pub opaque: u64 }
 impl Witness { pub uninterp spec fn items(&self) -> Seq<Seq<u8>>; }
 pub mod bitcoin {
     pub use crate::{Script, ScriptBuf, PublicKey};
-    pub mod key { pub use crate::XOnlyPublicKey; }
+    pub mod key { pub use crate::{XOnlyPublicKey, TweakedPublicKey, Parity}; }
+    pub mod taproot { pub use crate::{ControlBlock, TapLeafHash, TapNodeHash, LeafVersion}; }
     pub mod secp256k1 { pub use crate::Secp256k1; }
 }
 
@@ -283,6 +362,22 @@ def _range_index(m):
     return "spk.index_range(%s, %s)" % (lo, hi) if hi else "spk.index_from(%s)" % lo
 
 
+def _fold_to_loop(m):
+    """R8 (+ R10 invariant): `let X = RECV.iter().fold(INIT, |a, b| BODY);` over the control block's merkle branch ->
+    the index loop that is the definition of Iterator::fold on a slice iterator; INIT, the closure's parameter names and
+    its BODY are kept verbatim.  The invariant is the BIP341 recurrence k_{j+1} = hash_TapBranch(k_j, e_j)."""
+    name, recv, init, a, b, body = m.group(1), re.sub(r"\s+", "", m.group(2)), m.group(3).strip(), m.group(4), m.group(5), m.group(6).strip()
+    return ("let mut fold_acc = %s;\n"
+            "let ghost fold_init = fold_acc.0@;\n"
+            "let fold_src = &%s;\n"
+            "let mut fold_i: usize = 0;\n"
+            "while fold_i < fold_src.len()\n"
+            "    invariant fold_i <= fold_src.nodes().len(), fold_acc.0@ == merkle_prefix(fold_init, fold_src.nodes(), fold_i as int),\n"
+            "    decreases fold_src.nodes().len() - fold_i,\n"
+            "{\n    let %s = fold_acc;\n    let %s = fold_src.node_at(fold_i);\n    fold_acc = %s;\n    fold_i += 1;\n}\n"
+            "let %s = fold_acc;" % (init, recv, a, b, body, name))
+
+
 def C(tag, text, props=("C13",)):
     t = (text.replace("$SS", "ssig_items(script_sig.bytes())->Some_0").replace("$S", "ssig_items(script_sig.bytes())")
          .replace("$W", "witness.items()").replace("$PK", "spk.bytes()")
@@ -396,16 +491,16 @@ def oracle():
         # the annex would have to be removed and committed to in the sighash; the interpreter does neither => must reject
         C("p2tr.annex_is_rejected", "has_annex($W) ==> r is Err"),
         C("p2tr.key_path_single_element", "r is Ok && $W.len() == 1 ==> xonly_key_is($I, PubkeyType::Tr, %s) && stack_is($T, $W) && $C is None" % Q),
-        C("p2tr.script_path_control_block_commits_to_script", SP + " ==> cb_size_ok(%s.len()) && spec_cb_decodes(%s) && spec_tap_commit(%s, %s, %s)" % (WL, WL, WL, Q, TS)),
+        C("p2tr.script_path_control_block_commits_to_script", SP + " ==> cb_size_ok(%s.len()) && spec_cb_decodes(%s) && commitment_ok(%s, %s, %s)" % (WL, WL, WL, Q, TS)),
         C("p2tr.script_path_tapscript_decodes_as_tap", SP + " ==> script_is::<Tap>($I, ScriptType::Tr, %s)" % TS),
         C("p2tr.script_path_stack_is_witness_minus_two", SP + " ==> stack_is($T, $W.subrange(0, $W.len() - 2))"),
         C("p2tr.script_path_code_is_tapscript", SP + " ==> code_is($C, %s)" % TS),
         C("p2tr.err_nonempty_scriptsig", SSOK + " && $SS.len() > 0 ==> ERR(NonEmptyScriptSig)"),
         C("p2tr.err_annex", NOSS + " && valid_xonly(%s) && has_annex($W) ==> ERR(TapAnnexUnsupported)" % Q),
         C("p2tr.err_empty_witness", TROK + " && $W.len() == 0 ==> ERR(UnexpectedStackEnd)"),
-        C("p2tr.err_control_block_mismatch", TROK + " && $W.len() >= 2 && !is_bool_bytes(%s) && spec_cb_decodes(%s) && !is_bool_bytes(%s) && spec_decode::<Tap>(%s) is Some && !spec_tap_commit(%s, %s, %s) ==> ERR(ControlBlockVerificationError)" % (WL, WL, TS, TS, WL, Q, TS)),
+        C("p2tr.err_control_block_mismatch", TROK + " && $W.len() >= 2 && !is_bool_bytes(%s) && spec_cb_decodes(%s) && !is_bool_bytes(%s) && spec_decode::<Tap>(%s) is Some && !commitment_ok(%s, %s, %s) ==> ERR(ControlBlockVerificationError)" % (WL, WL, TS, TS, WL, Q, TS)),
         C("p2tr.accepts_key_path", TROK + " && $W.len() == 1 ==> r is Ok"),
-        C("p2tr.accepts_script_path", TROK + " && $W.len() >= 2 && !is_bool_bytes(%s) && spec_cb_decodes(%s) && !is_bool_bytes(%s) && spec_decode::<Tap>(%s) is Some && spec_tap_commit(%s, %s, %s) ==> r is Ok" % (WL, WL, TS, TS, WL, Q, TS)),
+        C("p2tr.accepts_script_path", TROK + " && $W.len() >= 2 && !is_bool_bytes(%s) && spec_cb_decodes(%s) && !is_bool_bytes(%s) && spec_decode::<Tap>(%s) is Some && commitment_ok(%s, %s, %s) ==> r is Ok" % (WL, WL, TS, TS, WL, Q, TS)),
     ])
     # ---- P2SH (BIP16) incl. nested segwit (BIP141) ------------------------------------------------------------
     HOK = SSOK + " && $SS.len() >= 1 && !is_bool_bytes(%s) && $PK == p2sh_script(h160(%s))" % (SL, SL)   # redeem script pushed and committed
@@ -495,7 +590,11 @@ def build(repo):
     vf.trust("PublicKey::from_slice / to_pubkeyhash, XOnlyPublicKey::from_slice (external_body)",
              "a key parses iff its encoding is valid (33 bytes, or 65 bytes with prefix 04: bitcoin 0.32 refuses hybrid keys) and then serialises to the SAME bytes; to_pubkeyhash(Ecdsa) = HASH160 of the serialisation")
     vf.trust("ControlBlock::decode / verify_taproot_commitment, Secp256k1::verification_only (external_body)",
-             "BIP341: decode succeeds only on 33+32m bytes (m <= 128) and keeps the bytes; the commitment check is an uninterpreted predicate of (control block, output key, script) bytes")
+             "BIP341: decode succeeds only on 33+32m bytes (m <= 128) and its fields are the parts of the bytes (leaf version c[0]&0xfe, parity c[0]&1, internal key c[1..33], "
+             "32-byte siblings); verify_taproot_commitment == commitment_ok, the BIP341 rule written over uninterpreted tagged hashes and the curve tweak "
+             "(read against bitcoin 0.32 taproot/mod.rs; the negligible failure cases t >= n / invalid P are not modelled)")
+    vf.trust("TapLeafHash::from_script, TapNodeHash::{from, from_node_hashes, from_script}, TaprootMerkleBranch::{len, node_at}, XOnlyPublicKey::{tap_tweak, serialize, ==}, TweakedPublicKey (external_body)",
+             "the pieces a hand-written commitment check is made of, each with its BIP341 meaning over the same uninterpreted functions, so that such a check is judged against commitment_ok")
     vf.trust("Miniscript::{decode_consensus, encode, to_no_checks_ms, TRUE, FALSE} (external_body)",
              "decode_consensus is an uninterpreted partial function of (context, bytes); encode / to_no_checks_ms uninterpreted")
     vf.trust("axiom_decode_is_canonical (external_body proof fn)",
@@ -558,6 +657,8 @@ def build(repo):
             ".and_then(|x: &Element<'txin>| -> (o: Option<&[u8]>) ensures (o is Some) == (*x is Push), o is Some ==> o->Some_0@ == x->Push_0@ { x.as_push().ok() })"),
         lit("R10", ".map(|x| !x.is_empty() && x[0] == TAPROOT_ANNEX_PREFIX)",
             ".map(|x: &[u8]| -> (b: bool) ensures b == (x@.len() > 0 && x@[0] == 0x50u8) { !x.is_empty() && x[0] == TAPROOT_ANNEX_PREFIX })"),
+        # (only in hand-written commitment checks) slice-iterator fold -> index loop
+        sub("R8", r"let (\w+) = ([\w.\s]+?)\s*\.iter\(\)\s*\.fold\((.+?),\s*\|(\w+), (\w+)\|\s*(\{.*?\})\s*\);", _fold_to_loop, required=False, flags=re.S),
         lit("R10", "let mut ssig_stack: Stack = ",
             "proof { axiom_decode_is_canonical::<Segwitv0>(); axiom_decode_is_canonical::<Tap>(); axiom_decode_is_canonical::<Legacy>(); }\n    let mut ssig_stack: Stack = "),
     ])
